@@ -9,6 +9,8 @@ import (
 	"io"
 	"net/http"
 	"os"
+	"reflect"
+	"sort"
 	"strings"
 	"sync"
 	"testing"
@@ -17,6 +19,9 @@ import (
 
 	"github.com/gorilla/websocket"
 	"github.com/vipnode/vipnode/v2/jsonrpc2"
+	"github.com/vipnode/vipnode/v2/pool"
+	"github.com/vipnode/vipnode/v2/pool/payment"
+	"github.com/vipnode/vipnode/v2/pool/status"
 	"pgregory.net/rapid"
 
 	"verif/vt"
@@ -437,6 +442,19 @@ func TestC16Binary(t *testing.T) {
 	}
 	status0 := statusOf()
 	names := sortedKeys(poolEndpoints)
+	// candidate names derived from the exported methods of the objects pool.go registers (candidate generation only;
+	// the oracle stays the fixed documented list): anything these objects grow must not become callable silently
+	var derived []string
+	for prefix, obj := range map[string]interface{}{"vipnode_": &pool.VipnodePool{}, "pool_": &payment.PaymentService{}, "pool_ ": &status.PoolStatus{}} {
+		typ := reflect.TypeOf(obj)
+		for i := 0; i < typ.NumMethod(); i++ {
+			n := strings.TrimSpace(prefix) + lowerFirst(typ.Method(i).Name)
+			if _, documented := poolEndpoints[n]; !documented {
+				derived = append(derived, n)
+			}
+		}
+	}
+	sort.Strings(derived)
 	idn := 100
 	rapid.Check(t, func(rt *rapid.T) {
 		transport := rapid.SampledFrom([]string{"http", "ws"}).Draw(rt, "transport")
@@ -447,7 +465,7 @@ func TestC16Binary(t *testing.T) {
 			name = rapid.SampledFrom(names).Draw(rt, "endpoint")
 			kinds, documented = poolEndpoints[name], true
 		case 1:
-			name = rapid.SampledFrom(poolNonEndpoints).Draw(rt, "nonEndpoint")
+			name = rapid.SampledFrom(append(append([]string{}, poolNonEndpoints...), derived...)).Draw(rt, "nonEndpoint")
 		default:
 			name = rapid.SampledFrom([]string{"vipnode_", "pool_", ""}).Draw(rt, "randPrefix") + rapid.StringMatching(`[a-zA-Z]{1,10}`).Draw(rt, "randName")
 			if k, ok := poolEndpoints[name]; ok {
